@@ -733,6 +733,92 @@ def _propagate_row_constants(pre, body):
     return [fix(s) for s in body]
 
 
+def _scalarise_append_lists(node):
+    """a local list filled by a fixed number of appends in straight-line code and read by constant index
+    (`parts = []; parts.append(a); parts.append(b); return parts[0] + parts[1]` - what is left of a loop over a
+    literal after it was written out) becomes one name per entry"""
+    def blocks(x):
+        for fld in ('body', 'orelse', 'finalbody'):
+            b = getattr(x, fld, None)
+            if isinstance(b, list) and b and isinstance(b[0], ast.stmt):
+                yield b
+        for h in getattr(x, 'handlers', []) or []:
+            yield h.body
+    todo = [node]
+    all_blocks = []
+    while todo:
+        x = todo.pop()
+        for b in blocks(x):
+            all_blocks.append(b)
+            for st in b:
+                if not isinstance(st, (ast.FunctionDef, ast.ClassDef)):
+                    todo.append(st)
+    uses = {}
+    for x in ast.walk(node):
+        if isinstance(x, ast.Name):
+            uses.setdefault(x.id, []).append(x)
+    par = {}
+    for x in ast.walk(node):
+        for ch in ast.iter_child_nodes(x):
+            par[id(ch)] = x
+    for b in all_blocks:
+        for st in list(b):
+            if not (isinstance(st, ast.Assign) and len(st.targets) == 1 and isinstance(st.targets[0], ast.Name)
+                    and isinstance(st.value, ast.List) and not st.value.elts):
+                continue
+            nm = st.targets[0].id
+            appends, reads, ok = [], [], True
+            for u in uses.get(nm, []):
+                if u is st.targets[0]:
+                    continue
+                p = par.get(id(u))
+                if isinstance(u.ctx, ast.Load) and isinstance(p, ast.Attribute) and p.attr == 'append' and \
+                        isinstance(par.get(id(p)), ast.Call) and isinstance(par.get(id(par[id(p)])), ast.Expr) and \
+                        par[id(par[id(p)])] in b and len(par[id(p)].args) == 1 and not par[id(p)].keywords:
+                    appends.append(par[id(par[id(p)])])
+                elif isinstance(u.ctx, ast.Load) and isinstance(p, ast.Subscript) and p.value is u and isinstance(p.ctx, ast.Load) and \
+                        isinstance(p.slice, ast.Constant) and isinstance(p.slice.value, int) and not isinstance(p.slice.value, bool):
+                    reads.append(p)
+                else:
+                    ok = False
+                    break
+            if not ok or not appends or not reads:
+                continue
+            order = sorted(appends, key=lambda a: b.index(a))
+            if b.index(order[0]) < b.index(st):
+                continue
+            n = len(order)
+            if any(not (-n <= r.slice.value < n) for r in reads):
+                continue
+            # every read comes after the last append (same block or nested deeper later on): by position in the block
+            last = b.index(order[-1])
+
+            def top_of(x):
+                while id(x) in par and par[id(x)] is not None and x not in b:
+                    x = par[id(x)]
+                return x if x in b else None
+            if any(top_of(r) is None or b.index(top_of(r)) <= last for r in reads):
+                continue
+            for k, a in enumerate(order):
+                new = ast.Assign(targets=[ast.Name(id='%s__%d' % (nm, k), ctx=ast.Store())], value=a.value.args[0])
+                ast.copy_location(new, a)
+                ast.fix_missing_locations(new)
+                b[b.index(a)] = new
+            b.remove(st)
+            for r in reads:
+                k = r.slice.value % n
+                r_par = par[id(r)]
+                newn = ast.Name(id='%s__%d' % (nm, k), ctx=ast.Load())
+                ast.copy_location(newn, r)
+                for fld, val in ast.iter_fields(r_par):
+                    if val is r:
+                        setattr(r_par, fld, newn)
+                    elif isinstance(val, list):
+                        for i_, y in enumerate(val):
+                            if y is r:
+                                val[i_] = newn
+
+
 def _fold_literal_index(node):
     """(a, b, c)[1] -> b  (after a table row was written out in place of the loop variable)"""
     def rec(x):
@@ -1319,6 +1405,7 @@ def flatten(ctx, func, depth=3):
             break
     _propagate_self_aliases(node)
     _fold_const_getattr(node)
+    _scalarise_append_lists(node)
     ast.fix_missing_locations(node)
     _set_parents(node)
     g = Func(func.module, func.cls, node, func.kind)
